@@ -113,6 +113,7 @@ def shards(tier, seed):
                             "pandas_max": 5 if tier == "quick" else 6, "seed": seed})
     L, k = (7, 4) if tier == "quick" else (9, 4)
     out = [{"kind": "asan", "variant": v, "L": L, "k": k} for v in ("fast", "twopass")] + out
+    out = [{"kind": "long", "name": nm} for nm in long_records() if tier != "quick" or not nm.endswith("70000") or nm.startswith(("grow", "walk"))] + out
     # deterministic rotation by seed (order only)
     r = seed % len(out)
     return out[r:] + out[:r]
@@ -242,9 +243,36 @@ def check_seq(seq, pandas=False, meta=True, forms=False):
     return msgs, sig
 
 
+def long_records():
+    """deterministic long records (bounded menu, not a sample of a larger space): length-dependent behaviour such as
+    buffer sizing, index width or stack depth needs hundreds to tens of thousands of points"""
+    out = {}
+    for n in (100, 1000, 5000, 70000):
+        k = np.arange(n)
+        out["walk%d" % n] = ((k * 7919) % 23 - 11).astype(float) + (k % 5 == 0) * 3.0
+        out["grow%d" % n] = np.where(k % 2 == 0, 1.0, -1.0) * (1.0 + k)  # every range larger than the last: nothing closes until the end
+        out["shrink%d" % n] = np.where(k % 2 == 0, 1.0, -1.0) * (n - k + 0.0)  # every range smaller: deep stack of open ranges
+        out["plateau%d" % n] = np.repeat(((k[: n // 2 + 1] * 31) % 7).astype(float), 2)[:n]
+    return out
+
+
+def check_long(name):
+    seq = long_records()[name]
+    msgs, sig = check_seq(seq.tolist(), pandas=False, meta=len(seq) <= 5000, forms=False)
+    return [m[:600] for m in msgs], sig
+
+
 def run_shard(sh):
     if sh.get("kind") == "asan":
         return _asan_shard(sh)
+    if sh.get("kind") == "long":
+        res = Result()
+        msgs, sig = check_long(sh["name"])
+        res.ev("long/" + sh["name"].rstrip("0123456789") + "/n%d" % len(long_records()[sh["name"]]))
+        for m in msgs:
+            res.viol({"kind": "long", "name": sh["name"]}, m, kind="long-" + m.split(":")[0].split("(")[0][:30])
+        res.sample(dict(sh))
+        return res
     res = Result()
     vals = _values(sh["alpha"], sh["k"])
     n, k = sh["n"], sh["k"]
@@ -277,6 +305,8 @@ def run_shard(sh):
 
 
 def replay(case):
+    if case.get("kind") == "long":
+        return check_long(case["name"])[0]
     if "asan_variant" in case:
         _ASAN[case["asan_variant"]] = crain.build(case["asan_variant"], asan=True)
         n = len(case["seq"])
